@@ -31,6 +31,7 @@ class Unit:
     dfcc: bool = True
     reach: bool = True              # vacuity guard: end of harness must be reachable
     reach_timeout: int = 120
+    reach_backend: str = ''         # '' = same family as backend; 'sat' | 'smt'
     harness_pre: str = ''            # ghost assignments before the call in the generated harness (e.g. g_N = numNodes;)
     small: str = ''                 # small-domain restriction for the extra SAT refuter (never used to prove)
     witness: str = ''               # optional concrete inputs for the vacuity guard run
@@ -43,6 +44,8 @@ class Unit:
     tier: str = 'quick'             # 'quick' | 'thorough'
     trusted: list = field(default_factory=list)   # extra trusted-base notes
     ghost_prefix: str = ''           # ghost declarations put at the start of the extracted body (entry values, spec terms)
+    post_pre: str = ''               # C text placed after the pre_extract declarations (types that need them)
+    pre_extract: list = field(default_factory=list)  # [dict(src=, anchor=, lower=[rules])]: declarations (enum/struct text) extracted verbatim from /repo and put before the function
     fallback_unwind: Optional[int] = None  # if the code's loop structure no longer matches the loop contracts: complete unwinding bound (configuration-bounded loops only)
     body_override: Optional[str] = None  # spec-level lemma functions only (no repo code): proof body, usually ''
 
@@ -112,6 +115,15 @@ def build_tu(u, registry, tolerant=False):
         add_prelude(registry[nm])
     add_prelude(u)
     info = dict(unit=u.name, kind=u.kind, uses=list(u.uses), inline=list(u.inline))
+    pre = []
+    for pe in u.pre_extract:
+        ex = extract.extract_text(pe['src'], pe['anchor'])
+        txt, fired = lower.apply_rules(extract.blank_comments_and_strings(ex['body'], keep_strings=True), pe.get('lower', []), tolerant)
+        parts.append('/* extracted from %s:%d */\n%s\n' % (pe['src'], ex['line'], txt))
+        pre.append(dict(file=pe['src'], line=ex['line'], sha256=ex['sha256'], rules=fired))
+    info['pre_extracted'] = pre
+    if u.post_pre:
+        parts.append(u.post_pre + '\n')
     for nm in u.uses:
         parts.append(registry[nm].decl())
     for nm in u.inline:
